@@ -278,7 +278,7 @@ def worker(job):
 def main(chk, tier, seed):
     chk.rule = RULE
     chk.assumptions = ["oracle: plain left-to-right sums over harness tables", "infinity in {10000, 1000, inf}"]
-    n = 6000 if tier == "quick" else 50000
+    n = 6000 if tier == "quick" else 250000
     common.run_chunked(chk, "c13", n, nchunks=16 if tier == "quick" else 64, timeout=3000)
     chk.inconclusive_if(chk.counters.get("solution_cost_complete_checked", 0) < 500, "too few solution_cost calls")
     chk.inconclusive_if(chk.counters.get("incomplete_rejected_with_ValueError", 0) < 100 and not chk.violations, "incomplete assignments hardly exercised")
